@@ -67,6 +67,11 @@ func c14Scenarios() []*core.Scenario {
 		mk("Close || GetLog, FirstIndex, LastIndex", core.ThreadSpec{Name: "reader", Ops: []core.Op{{K: "GL", Idx: 1}, {K: "FI"}, {K: "LI"}}}),
 		mk("Close || Set, Get, GetUint64", core.ThreadSpec{Name: "stable", Ops: []core.Op{{K: "S", Key: "k1", Val: []byte("v")}, {K: "G", Key: "k1"}, {K: "GU", Key: "k2"}}}),
 		mk("Close || Close", core.ThreadSpec{Name: "closer2", Ops: []core.Op{{K: "C"}}}),
+		func() *core.Scenario {
+			s := mk("Close (metadata store's Close fails) || StoreLogs", core.ThreadSpec{Name: "writer", Ops: []core.Op{a(3, 0, 4)}})
+			s.MetaCloseFails = true
+			return s
+		}(),
 		mk("Close || StoreLogs || GetLog, LastIndex", core.ThreadSpec{Name: "writer", Ops: []core.Op{a(3, 0, 4)}}, core.ThreadSpec{Name: "reader", Ops: []core.Op{{K: "GL", Idx: 2}, {K: "LI"}}}),
 	}
 }
